@@ -25,6 +25,8 @@ def _txt(node) -> str:
 def _region_assign(fn: ast.FunctionDef, array: str):
     """the statement `<array>[lo0:hi0, lo1:hi1] = <const>` and the chain of enclosing `if`s"""
     def walk(stmts, guards):
+        # `guards`: the path condition — enclosing `if`s, and the negation of earlier `if …: return` (if/else in statement form)
+        guards = list(guards)
         for st in stmts:
             if (isinstance(st, ast.Assign) and len(st.targets) == 1 and isinstance(st.targets[0], ast.Subscript)
                     and ast.unparse(st.targets[0].value) == array):
@@ -32,6 +34,10 @@ def _region_assign(fn: ast.FunctionDef, array: str):
             if isinstance(st, ast.If):
                 yield from walk(st.body, guards + [(st.test, True)])
                 yield from walk(st.orelse, guards + [(st.test, False)])
+                if c11_state._all_paths_end(st.body) and not c11_state._all_paths_end(st.orelse):
+                    guards.append((st.test, False))
+                elif st.orelse and c11_state._all_paths_end(st.orelse) and not c11_state._all_paths_end(st.body):
+                    guards.append((st.test, True))
             elif isinstance(st, (ast.With, ast.For, ast.While)):
                 yield from walk(st.body, guards)
     found = list(walk(fn.body, []))
@@ -46,13 +52,28 @@ def _region_build(array: str, value: bool):
         if not (isinstance(st.value, ast.Constant) and st.value.value is value):
             raise Untranslatable(f"`{array}[...]` is assigned `{ast.unparse(st.value)}`")
         sl = st.targets[0].slice
-        if not (isinstance(sl, ast.Tuple) and len(sl.elts) == 2 and all(isinstance(e, ast.Slice) for e in sl.elts)):
-            raise Untranslatable(f"subscript `{ast.unparse(sl)}` is not a pair of slices")
-        if any(e.step is not None or e.lower is None or e.upper is None for e in sl.elts):
-            raise Untranslatable("open or stepped slice")
+        if isinstance(sl, (ast.Call, ast.Name)):
+            # the region computed by a private helper / a hoisted local: inline it at the call site
+            scan = c11_state._Scan(SSL)
+            if isinstance(sl, ast.Name):
+                sl = c11_state._local_env(fn).get(sl.id, sl)
+            sl = c11_state._inline(scan, sl)
+
+        def bounds(e):
+            if isinstance(e, ast.Slice):
+                if e.step is not None or e.lower is None or e.upper is None:
+                    raise Untranslatable("open or stepped slice")
+                return e.lower, e.upper
+            if isinstance(e, ast.Call) and ast.unparse(e.func) == "slice" and len(e.args) == 2 and not e.keywords:
+                return e.args[0], e.args[1]
+            raise Untranslatable(f"`{ast.unparse(e)}` is not a slice with two bounds")
+
+        if not (isinstance(sl, ast.Tuple) and len(sl.elts) == 2):
+            raise Untranslatable(f"subscript `{ast.unparse(sl)[:80]}` is not a pair of slices")
+        (r0, r1), (c0, c1) = bounds(sl.elts[0]), bounds(sl.elts[1])
         tr = ExprTr(_REGION_BINDS)
         lets, _ = translate_block(fn.body, tr, [])
-        parts = [tr.int(sl.elts[0].lower), tr.int(sl.elts[0].upper), tr.int(sl.elts[1].lower), tr.int(sl.elts[1].upper)]
+        parts = [tr.int(r0), tr.int(r1), tr.int(c0), tr.int(c1)]
         return emit_def(k.name, k.params, lets, "[" + ", ".join(parts) + "]", "List Int")
     return build
 
@@ -179,8 +200,9 @@ def _cap_build(k: Kernel, fn: ast.FunctionDef) -> str:
         if any(isinstance(c, ast.Call) and ast.unparse(c.func) == "gaussian_fill" for c in ast.walk(st)) and not isinstance(
                 st, (ast.If, ast.With, ast.For, ast.While)):
             call = [c for c in ast.walk(st) if isinstance(c, ast.Call) and ast.unparse(c.func) == "gaussian_fill"][0]
-            if not call.args or ast.unparse(call.args[0]) != "nonzero_mask_count":
-                raise Untranslatable("first argument of gaussian_fill is not `nonzero_mask_count`")
+            arg0 = call.args[0] if call.args else next((kw.value for kw in call.keywords if kw.arg == "nonzero_mask_count"), None)
+            if arg0 is None or ast.unparse(arg0) != "nonzero_mask_count":
+                raise Untranslatable("the requested count handed to gaussian_fill is not `nonzero_mask_count`")
             break
     else:
         raise Untranslatable("call of gaussian_fill not found")
@@ -198,15 +220,49 @@ def _cap_build(k: Kernel, fn: ast.FunctionDef) -> str:
 
 
 def _early_return_build(k: Kernel, fn: ast.FunctionDef) -> str:
-    tr = ExprTr({"nonzero_mask_count": "count", "prob.sum()": "free", "mask.sum()": "free"})
-    for st in fn.body:
-        if isinstance(st, ast.If) and st.body and isinstance(st.body[-1], ast.Return) and not st.orelse:
-            ret = st.body[-1].value
-            if ret is None or "zeros" not in ast.unparse(ret):
-                raise Untranslatable(f"early return of `{ast.unparse(ret) if ret else None}`")
-            return emit_def(k.name, k.params, [], tr.bool(st.test), "Bool")
-    # no early return at all: the condition is `false`
-    return emit_def(k.name, k.params, [], "false", "Bool")
+    """when does `uniform_fill` NOT draw?  The negation of the path condition under which `rng.choice` is reached — the
+    same decision whether written as an early return, as a guard around the draw or as if/else."""
+    tr = ExprTr({"nonzero_mask_count": "count", "prob.sum()": "free", "mask.sum()": "free", "mask.flatten().numpy().sum()": "free",
+                 "np.count_nonzero(prob)": "free", "torch.count_nonzero(mask)": "free"})
+    loc = c11_state._local_env(fn)
+
+    def ends(stmts):
+        return c11_state._all_paths_end(stmts)
+
+    def has_draw(st):
+        return any(isinstance(c, ast.Call) and isinstance(c.func, ast.Attribute) and c.func.attr == "choice" for c in ast.walk(st))
+
+    def find(stmts, conds):
+        for st in stmts:
+            if isinstance(st, ast.If):
+                if not has_draw(ast.Module(body=[ast.Expr(value=st.test)], type_ignores=[])):
+                    for blk, pol in ((st.body, True), (st.orelse, False)):
+                        r = find(blk, conds + [(st.test, pol)])
+                        if r is not None:
+                            return r
+                    if ends(st.body) and not ends(st.orelse):
+                        conds = conds + [(st.test, False)]
+                    elif st.orelse and ends(st.orelse) and not ends(st.body):
+                        conds = conds + [(st.test, True)]
+                    continue
+            if has_draw(st):
+                if isinstance(st, (ast.For, ast.While, ast.Try)):
+                    raise Untranslatable("the draw of uniform_fill is inside a loop / try")
+                return conds
+        return None
+
+    conds = find(c11_state._body(fn), [])
+    if conds is None:
+        raise Untranslatable("no `rng.choice(…)` in uniform_fill")
+    parts = []
+    for test, pol in conds:
+        t = test
+        for _ in range(3):
+            t = c11_state._subst(t, {n: v for n, v in loc.items() if n in {x.id for x in ast.walk(t) if isinstance(x, ast.Name)}})
+        b = tr.bool(t)
+        parts.append(b if pol else f"(!{b})")
+    body = "false" if not parts else "(!(" + " && ".join(parts) + "))"
+    return emit_def(k.name, k.params, [], body, "Bool")
 
 
 def _half_bound_build(which: str):
@@ -416,8 +472,8 @@ def _stages(fn: ast.FunctionDef) -> str:
             seq.append("clone")
         elif t.startswith("temp_mask["):
             seq.append("protect")
-        elif t == "target_mask" and "gaussian_fill(" in v:
-            seq.append("fill")
+        elif "gaussian_fill(" in v:
+            seq.append("fill")          # whatever local receives the kernel's result
         elif t == "input_mask":
             seq.append("input")
         elif t in ("(input_mask, target_mask)", "input_mask, target_mask") and "acs_mask" in v:
